@@ -11,7 +11,7 @@ CfgOf(c) == IF c.flavour = "stake"
 TInit ==
   /\ l = 0
   /\ cfg = [flavour |-> "group", tpw |-> 1, minBond |-> 0, period |-> [k |-> "h", v |-> 0], maxW |-> -1]
-  /\ members = NoMembers /\ total = 0 /\ listed = {} /\ admin = "none" /\ hooks = <<>>
+  /\ members = NoMembers /\ total = 0 /\ listed = {} /\ nlisted = 0 /\ admin = "none" /\ hooks = <<>>
   /\ stake = [a \in Addr |-> 0] /\ claims = [a \in Addr |-> <<>>] /\ held = 0 /\ ubal = [a \in Addr |-> 0]
   /\ now = [h |-> 0, t |-> 0] /\ out = <<>>
   /\ init0 = [m |-> NoMembers, t |-> 0] /\ hist = <<>>
@@ -27,6 +27,7 @@ TNext ==
      /\ cfg' = IF reset THEN CfgOf(e.cfg) ELSE cfg
      /\ members' = M /\ total' = e.obs.total
      /\ listed' = {[a |-> x.a, w |-> x.w] : x \in ToSet(e.obs.listed)}
+     /\ nlisted' = e.obs.nlisted
      /\ admin' = e.obs.admin /\ hooks' = e.obs.hooks
      /\ stake' = [a \in Addr |-> e.obs.stake[a]]
      /\ claims' = [a \in Addr |-> e.obs.claims[a]]
